@@ -26,8 +26,15 @@ class FakeRandom:
         self.i += 1
         return r
 
-    def shuffle(self, l):
-        raise RuntimeError("shuffle not expected here")
+    def __getattr__(self, name):
+        # anything else asked of `random` gets the real thing, seeded per case (see gin.FakeShuffle)
+        if name.startswith("__"):
+            raise AttributeError(name)
+        import random as _r
+        rr = self.__dict__.get("_real")
+        if rr is None:
+            rr = self.__dict__["_real"] = _r.Random(1000 * self.off + self.step)
+        return getattr(rr, name)
 
 
 def classes():
